@@ -1077,6 +1077,13 @@ class SymBytesBase:
         r.is_text = True
         return r
 
+    def partition(self, sep):
+        parts = self.split(sep, 1)
+        if len(parts) == 2:
+            return parts[0], sep, parts[1]
+        empty = self._mk(Conc(b"", self.is_text))
+        return self, empty, empty
+
     def strip(self, chars=None):
         """leading/trailing whitespace (or the characters of a concrete `chars`) removed: forks on the symbolic
         characters at the ends"""
